@@ -204,6 +204,8 @@ def random_configs(pid, tier, seed):
         else:
             for c in base:      # scripted shared-listener scenarios (two tasks parked in accept)
                 c["poolruns"] = (4 if q else 20) if c["nh"] > 1 and c["cap"] >= 3 else 0
+                # reverse-direction one-way cuts made from host code in the step a request becomes due
+                c["cutruns"] = (3 if q else 12) if c["nh"] > 1 else 0
         return [dict(c, seed=seed * 101 + i, maxconn=c["conns"], ports=[1, 2]) for i, c in enumerate(base)]
     if pid == "C15":
         base = [dict(lo=49152, hi=49156, maxsock=8, ops=40, names=40, runs=6 if q else 30),
